@@ -208,6 +208,14 @@ theorem vleStep_inv (c : Cls K) (r0 : Rows K) (st st' : Rows K × VReg K) (e : V
       simp only [Except.ok.injEq] at hs
       subst hs
       exact writeGL_inv c r0 st h _ _ (fun i _ _ => by ring)
+  | bubbleLimited V y =>
+    simp only [vleStep, Except.ok.injEq] at hs
+    subst hs
+    exact writeGL_inv c r0 st h _ _ (fun i _ _ => by ring)
+  | dewLimited V x =>
+    simp only [vleStep, Except.ok.injEq] at hs
+    subst hs
+    exact writeGL_inv c r0 st h _ _ (fun i _ _ => by ring)
   | condense f =>
     simp only [vleStep] at hs
     cases hf : corrFrac f with
@@ -246,6 +254,8 @@ theorem vleStep_sameReg (c : Cls K) (st st' : Rows K × VReg K) (e : VEv K)
     cases hl : leverSplit st.2 x0 y with
     | error e => rw [hl] at hs; cases hs
     | ok s => rw [hl] at hs; cases hs; exact ⟨rfl, rfl, rfl⟩
+  case bubbleLimited V y => cases hs; exact ⟨rfl, rfl, rfl⟩
+  case dewLimited V x => cases hs; exact ⟨rfl, rfl, rfl⟩
   case condense f =>
     cases hf : corrFrac f with
     | none => rw [hf] at hs; cases hs; exact ⟨rfl, rfl, rfl⟩
@@ -271,12 +281,47 @@ theorem leverSplit_bounds (reg : VReg K) (x0 : K) (y : List K) {s : K} (h : leve
         exact ⟨not_lt.mp h2, not_lt.mp h1⟩
   · cases h
 
+/-- the per-chemical cap of the bubble-limited branch: whatever `V` and `y_bubble` are, the vapour flow never
+exceeds what is there -/
+theorem bubbleV_le (reg : VReg K) (V : K) (y : List K) (i : Nat) : bubbleV reg V y i ≤ get reg.mol i := by
+  unfold bubbleV
+  simp only
+  split
+  · exact le_refl _
+  · rename_i h; exact not_lt.mp h
+
+theorem bubbleV_nonneg (reg : VReg K) (V : K) (y : List K) (i : Nat) (hm : 0 ≤ get reg.mol i)
+    (hV : 0 ≤ V) (hF : 0 ≤ reg.fmol) (hy : 0 ≤ get y i) : 0 ≤ bubbleV reg V y i := by
+  unfold bubbleV
+  simp only
+  split
+  · exact hm
+  · exact mul_nonneg hy (mul_nonneg hF hV)
+
+/-- the cap of the dew-limited branch: the liquid flow never exceeds what is there -/
+theorem dewL_le (reg : VReg K) (V : K) (x : List K) (i : Nat) : dewL reg V x i ≤ get reg.mol i := by
+  unfold dewL
+  simp only
+  split
+  · exact le_refl _
+  · rename_i h; exact not_lt.mp h
+
+theorem dewL_nonneg (reg : VReg K) (V : K) (x : List K) (i : Nat) (hm : 0 ≤ get reg.mol i)
+    (hV : V ≤ 1) (hF : 0 ≤ reg.fmol) (hx : 0 ≤ get x i) : 0 ≤ dewL reg V x i := by
+  unfold dewL
+  simp only
+  split
+  · exact hm
+  · exact mul_nonneg (mul_nonneg hx hF) (by linarith)
+
 /-- The hypothesis a step needs for non-negativity: only the steps whose vapour flows were **not**
 clipped by the code carry one (it is monitored by the driver on every recorded parameter). -/
 def EvOK (c : Cls K) (reg : VReg K) : VEv K → Prop
   | .setFlowsLit v => ∀ i < c.n, i ∈ reg.idx → 0 ≤ get v i ∧ get v i ≤ get reg.mol i
   | .frac V => 0 ≤ V ∧ V ≤ 1
   | .lever _ y => 0 ≤ reg.fmol ∧ ∀ i < c.n, i ∈ reg.idx → 0 ≤ get y i
+  | .bubbleLimited V y => 0 ≤ V ∧ 0 ≤ reg.fmol ∧ ∀ i < c.n, i ∈ reg.idx → 0 ≤ get y i
+  | .dewLimited V x => V ≤ 1 ∧ 0 ≤ reg.fmol ∧ ∀ i < c.n, i ∈ reg.idx → 0 ≤ get x i
   | _ => True
 
 /-- Non-negativity invariant of a VLE call whose `_setup` left the registers `reg0`. -/
@@ -399,6 +444,21 @@ theorem vleStep_pos (c : Cls K) (reg0 : VReg K) (st st' : Rows K × VReg K) (e :
       · exact ⟨hm', by linarith⟩
       · rename_i hlt
         exact ⟨hFs, by linarith [not_lt.mp hlt]⟩
+  | bubbleLimited V y =>
+    simp only [vleStep, Except.ok.injEq] at hs
+    subst hs
+    refine writeGL_pos c reg0 st h _ _ (fun i hi hm => ?_)
+    obtain ⟨hV, hF, hy⟩ := hok
+    have hle := bubbleV_le st.2 V y i
+    exact ⟨bubbleV_nonneg st.2 V y i (h.mol i hi) hV (hf0 ▸ hF) (hy i hi (hidx0 ▸ hm)), by linarith⟩
+  | dewLimited V x =>
+    simp only [vleStep, Except.ok.injEq] at hs
+    subst hs
+    refine writeGL_pos c reg0 st h _ _ (fun i hi hm => ?_)
+    obtain ⟨hV, hF, hx⟩ := hok
+    have hle := dewL_le st.2 V x i
+    have hnn := dewL_nonneg st.2 V x i (h.mol i hi) hV (hf0 ▸ hF) (hx i hi (hidx0 ▸ hm))
+    exact ⟨by linarith, by linarith⟩
   | condense f =>
     simp only [vleStep] at hs
     cases hf : corrFrac f with
@@ -452,6 +512,8 @@ theorem vleStep_frame (c : Cls K) (st st' : Rows K × VReg K) (e : VEv K)
     cases hl : leverSplit st.2 x0 y with
     | error e => rw [hl] at hs; cases hs
     | ok s => rw [hl] at hs; cases hs; exact key _ _
+  case bubbleLimited V y => cases hs; exact key _ _
+  case dewLimited V x => cases hs; exact key _ _
   case condense f =>
     cases hf : corrFrac f with
     | none => rw [hf] at hs; cases hs; exact ⟨rfl, rfl⟩
@@ -651,5 +713,91 @@ theorem vlleTotal_nonneg (c : Cls K) (r : Rows K) (h : RowsNonneg c r) : 0 ≤ v
   have h3 := sumOver_nonneg (List.range c.n) (get r.l) (fun i hi => (h i (hr i hi)).2.1)
   linarith
 
+
+/-! ### what `_setup` keeps between calls -/
+
+theorem get_tab_ge (n : Nat) (f : Nat → K) {i : Nat} (h : n ≤ i) : get (tab n f) i = 0 := by
+  simp [get, tab, List.getD_eq_getElem?_getD, h]
+
+theorem isNZ_zero : isNZ (0 : K) = false := by
+  have : ¬ (isNZ (0 : K) = true) := fun h => (isNZ_iff (0 : K)).mp h rfl
+  simpa using this
+
+/-- membership in `mol.nonzero_keys()` decides Python truthiness of every entry of a pooled vector -/
+theorem isNZ_eq_mem_nzKeys (c : Cls K) (f : Nat → K) (i : Nat) :
+    isNZ (get (tab c.n f) i) = decide (i ∈ nzKeys c (tab c.n f)) := by
+  by_cases hi : i < c.n
+  · by_cases hz : isNZ (get (tab c.n f) i) = true
+    · have : i ∈ nzKeys c (tab c.n f) := by
+        unfold nzKeys; exact List.mem_filter.mpr ⟨List.mem_range.mpr hi, hz⟩
+      simp [hz, this]
+    · have : i ∉ nzKeys c (tab c.n f) := by
+        unfold nzKeys; intro hm; exact hz (List.mem_filter.mp hm).2
+      simp only [Bool.not_eq_true] at hz
+      simp [hz, this]
+  · have hge : c.n ≤ i := not_lt.mp hi
+    have : i ∉ nzKeys c (tab c.n f) := by
+      unfold nzKeys; intro hm; exact hi (List.mem_range.mp (List.mem_filter.mp hm).1)
+    rw [get_tab_ge _ _ hge, isNZ_zero]
+    simp [this]
+
+/-- the index is a function of the set of nonzero keys: `[i for i in self._vle_index if i in nonzeros]` -/
+theorem vleIndex_eq_filter_nzKeys (c : Cls K) (f : Nat → K) :
+    vleIndex c (tab c.n f) = c.vle.filter fun i => decide (i ∈ nzKeys c (tab c.n f)) := by
+  unfold vleIndex
+  exact List.filter_congr (fun i _ => isNZ_eq_mem_nzKeys c f i)
+
+theorem lleIndex_eq_filter_nzKeys (c : Cls K) (f : Nat → K) :
+    lleIndex c (tab c.n f) = c.lle.filter fun i => decide (i ∈ nzKeys c (tab c.n f)) := by
+  unfold lleIndex
+  exact List.filter_congr (fun i _ => isNZ_eq_mem_nzKeys c f i)
+
+/-- Consistency of what a VLE object remembers: the stored index is the index of the stored key set. -/
+def VCacheOK (c : Cls K) : Option VCache → Prop
+  | none => True
+  | some k => k.idx = c.vle.filter fun i => decide (i ∈ k.nz)
+
+/-- **The reset decision of `_setup` is sound**: with a consistent cache, re-using the stored index gives
+exactly what a fresh `_setup` computes, and the cache stays consistent. -/
+theorem vleSetupC_eq (c : Cls K) (cache : Option VCache) (hc : VCacheOK c cache) (r : Rows K) :
+    (vleSetupC c cache r).1 = vleSetup c r ∧ VCacheOK c (vleSetupC c cache r).2.1 := by
+  unfold vleSetupC vleSetup
+  simp only
+  split
+  · cases cache with
+    | none => exact ⟨rfl, vleIndex_eq_filter_nzKeys c _⟩
+    | some k =>
+      simp only
+      split
+      · rename_i hk
+        refine ⟨?_, hc⟩
+        have : k.idx = vleIndex c (tab c.n fun i => get r.l i + get r.g i) := by
+          rw [vleIndex_eq_filter_nzKeys, ← hk]; exact hc
+        simp only [vleSetupWith, this]
+      · exact ⟨rfl, vleIndex_eq_filter_nzKeys c _⟩
+  · exact ⟨rfl, hc⟩
+
+/-- Consistency of what an SLE object remembers. -/
+def SCacheOK (c : Cls K) (k : SCache) : Prop :=
+  ∀ nz, k.nz = some nz → k.idx = c.lle.filter fun i => decide (i ∈ nz)
+
+theorem sleSetupC_ok (c : Cls K) (cache : SCache) (hc : SCacheOK c cache) (r : Rows K) (j : Nat) :
+    SCacheOK c (sleSetupC c cache r j).1 := by
+  unfold sleSetupC
+  simp only
+  split
+  · split
+    · exact hc
+    · split
+      · intro nz hnz; exact hc nz hnz
+      · have hfresh : ∀ k : SCache, k.nz = some (nzKeys c (tab c.n fun i => get r.l i + get r.s i)) →
+            k.idx = lleIndex c (tab c.n fun i => get r.l i + get r.s i) → SCacheOK c k := by
+          intro k h1 h2 nz hnz
+          rw [h1] at hnz
+          simp only [Option.some.injEq] at hnz
+          subst hnz
+          rw [h2]; exact lleIndex_eq_filter_nzKeys c _
+        split <;> exact hfresh _ rfl rfl
+  · exact hc
 
 end ThermoVerif.EqWriteback
